@@ -317,6 +317,43 @@ async fn run_case(c: &CaseCfg, maxconn: usize, ops: &[String], out: &mut dyn Wri
                 })));
                 "ok".into()
             }
+            "flood" => {
+                // <n> connections that keep pipelining SET commands (32 per write, replies drained) for <ms> milliseconds,
+                // in the background: the next operations run while they flood
+                let n: u64 = it.next().unwrap().parse().unwrap();
+                let ms: u64 = it.next().unwrap().parse().unwrap();
+                for c in 0..n {
+                    let port = srv.port;
+                    tokio::spawn(async move {
+                        let mut s = match TcpStream::connect(("127.0.0.1", port)).await {
+                            Ok(s) => s,
+                            Err(_) => return,
+                        };
+                        let _ = s.set_nodelay(true);
+                        let (mut rd, mut wr) = s.into_split();
+                        let drain = tokio::spawn(async move {
+                            let mut buf = vec![0u8; 65536];
+                            loop {
+                                match rd.read(&mut buf).await {
+                                    Ok(0) | Err(_) => break,
+                                    Ok(_) => {}
+                                }
+                            }
+                        });
+                        let one = format!("*3\r\n$3\r\nSET\r\n$6\r\nflood{}\r\n$1\r\nx\r\n", c % 10);
+                        let batch = one.repeat(32).into_bytes();
+                        let deadline = std::time::Instant::now() + Duration::from_millis(ms);
+                        while std::time::Instant::now() < deadline {
+                            if wr.write_all(&batch).await.is_err() {
+                                break;
+                            }
+                        }
+                        drop(wr);
+                        let _ = drain.await;
+                    });
+                }
+                "ok".into()
+            }
             "clients" => {
                 // <n> concurrent connections, each issuing <ops> random single-key commands and waiting for
                 // each reply; merges every <ms> (0 = none).  Prints the timed history.
